@@ -945,6 +945,9 @@ func (d *Decoder) typeInfo() (highThreeBits, lowFiveBits byte, additional []byte
 	case eightBytesAdditional:
 		additional = make([]byte, 8)
 	default:
+		if lowFiveBits > eightBytesAdditional {
+			return 0, 0, nil, fmt.Errorf("unsupported additional information %d: reserved values and indefinite lengths are not supported", lowFiveBits)
+		}
 		return highThreeBits, lowFiveBits, nil, nil
 	}
 
